@@ -19,6 +19,7 @@ type FItem struct {
 	Count   string // count expression as written
 	Items   []FItem
 	PreEqu  bool // an EQU line `m equ 2` is written directly before this (top-level) block
+	Tail    bool // the body ends with a line that holds only the label `tail` (count 1 blocks)
 }
 
 var counterNames = []string{"i", "j", "k"}
@@ -76,6 +77,9 @@ func forSource(items []FItem, epilogue string) string {
 				nb = it.Label
 			}
 			rec(it.Items, d+1, nb)
+			if it.Tail {
+				sb.WriteString("tail\n")
+			}
 			sb.WriteString("rof\n")
 		}
 	}
@@ -156,6 +160,9 @@ func unroll(items []FItem, epilogue *ref.AIns) (*ref.AProg, int, bool) {
 				e2[it.Counter] = v
 				rec(it.Items, d+1, e2, nb)
 			}
+			if it.Tail && n == 1 {
+				pending = append(pending, "tail")
+			}
 			if it.Label != "" && len(p.Ins) == before {
 				ok = false // labelled block that emits nothing: not generated
 				pending = nil
@@ -164,7 +171,10 @@ func unroll(items []FItem, epilogue *ref.AIns) (*ref.AProg, int, bool) {
 	}
 	rec(items, 0, map[string]int{}, "")
 	if epilogue != nil {
-		p.Ins = append(p.Ins, *epilogue)
+		e := *epilogue
+		e.Labels = append(append([]string{}, pending...), e.Labels...)
+		pending = nil
+		p.Ins = append(p.Ins, e)
 	}
 	if len(pending) > 0 {
 		ok = false
@@ -325,6 +335,13 @@ func (c *Ctx) RunC08(tier string) {
 				c.checkFor(cp, "", nil, "count spelled "+a)
 			}
 			b.Count = old
+			// a label-only line as the last body line of a block that runs once
+			if depthOf[bi] == 0 && old == "1" {
+				b.Tail = true
+				epi := ref.AIns{Op: "jmp", A: operand("", "tail"), B: operand("", "a")}
+				c.checkFor(cp, "jmp tail, a\n", &epi, "label-only line before ROF")
+				b.Tail = false
+			}
 			// the count from an EQU that is defined between two blocks
 			if depthOf[bi] == 0 && bi > 0 && (old == "2" || old == "3") {
 				b.PreEqu = true
